@@ -833,6 +833,31 @@ theorem apart_of_apartB {h : Heap} {x y : Addr} (hb : apartB h x y = true) : Apa
     | list xs => simp at hl
     | cont kvs => simp at hl
 
+/-- sufficient check for `SibSep h r` -/
+def sibSepB (h : Heap) (r : Addr) : Bool :=
+  closedSetB h (reach h r) && (reach h r).all fun a =>
+    match h.get? a with
+    | some c => (List.range c.kids.length).all fun i => (List.range c.kids.length).all fun j =>
+        i == j || match c.kids[i]?, c.kids[j]? with
+          | some ki, some kj => apartB h ki kj
+          | _, _ => true
+    | none => true
+
+theorem sibSep_of_sibSepB {h : Heap} {r : Addr} (hb : sibSepB h r = true) : SibSep h r := by
+  simp only [sibSepB, Bool.and_eq_true] at hb
+  obtain ⟨hcl, hall⟩ := hb
+  intro a c hra hg i j ki kj hi hj hij
+  have ha := reach_mem_of_closedSetB hcl (mem_reach_self h r) hra
+  have h1 := List.all_eq_true.mp hall a ha
+  simp only [hg] at h1
+  have hil : i < c.kids.length := (List.getElem?_eq_some_iff.mp hi).1
+  have hjl : j < c.kids.length := (List.getElem?_eq_some_iff.mp hj).1
+  have h2 := List.all_eq_true.mp (List.all_eq_true.mp h1 i (List.mem_range.mpr hil)) j (List.mem_range.mpr hjl)
+  simp only [hi, hj, Bool.or_eq_true, beq_iff_eq] at h2
+  rcases h2 with e | h2
+  · exact absurd e hij
+  · exact apart_of_apartB h2
+
 /-- a leaf value meets every side condition of `HOp.TreeOk` / `HOp.Ok` -/
 theorem leaf_value_ok {h : Heap} {v : Addr} {s : Scalar} (hg : h.get? v = some (.leaf s)) (x : Addr) :
     v < h.size ∧ SibSep h v ∧ Apart h x v ∧ ∀ w, Reach h x w → Composite h w → ¬ Reach h v w := by
@@ -845,5 +870,104 @@ theorem leaf_value_ok {h : Heap} {v : Addr} {s : Scalar} (hg : h.get? v = some (
     have := reach_leaf hg hvw
     subst this
     exact not_composite_leaf hg hcomp
+
+/-! ## 7. overwriting a LIST SLOT through a container call (`AddValue("l[i][j]", v)`) -/
+
+/-- when the walk through the index groups exists, `ensureList` reuses every list on the way and the
+    only content change is the last slot of the deepest list -/
+theorem setSlotH_along_walk {h : Heap} {rank : Addr → Nat} (hr : h.RankedBy rank) (v y : Addr) :
+    ∀ (is : List Nat) (cur : Option Addr), is ≠ [] → walkIdxH h cur is = some y →
+      ∃ (a l : Addr) (xs : List Addr) (i : Nat), cur = some a ∧ Reach h a l ∧ h.get? l = some (.list xs) ∧
+        xs[i]? = some y ∧ setSlotH h cur is v = (h.write l (.list (xs.set i v)), a)
+  | [], _, hne, _ => absurd rfl hne
+  | [i], cur, _, hw => by
+    cases cur with
+    | none => simp [walkIdxH] at hw
+    | some a =>
+      cases hg : h.get? a with
+      | none => simp [walkIdxH, hg] at hw
+      | some cell =>
+        cases cell with
+        | leaf s => simp [walkIdxH, hg] at hw
+        | cont kvs => simp [walkIdxH, hg] at hw
+        | list xs =>
+          simp only [walkIdxH, hg] at hw
+          have hlt : i < xs.length := (List.getElem?_eq_some_iff.mp hw).1
+          refine ⟨a, a, xs, i, rfl, .refl _, hg, hw, ?_⟩
+          simp only [setSlotH, listAt, hg, padH_eq_self (Nat.succ_le_of_lt hlt)]
+  | i :: j :: js, cur, _, hw => by
+    cases cur with
+    | none => simp [walkIdxH] at hw
+    | some a =>
+      cases hg : h.get? a with
+      | none => simp [walkIdxH, hg] at hw
+      | some cell =>
+        cases cell with
+        | leaf s => simp [walkIdxH, hg] at hw
+        | cont kvs => simp [walkIdxH, hg] at hw
+        | list xs =>
+          simp only [walkIdxH, hg] at hw
+          obtain ⟨a', l, xs', i', hcur, ha'l, hgl, hy, hset⟩ :=
+            setSlotH_along_walk hr v y (j :: js) xs[i]? (by simp) hw
+          have hlt : i < xs.length := (List.getElem?_eq_some_iff.mp hcur).1
+          have hkid : a' ∈ (Cell.list xs).kids := by simpa [Cell.kids] using List.mem_of_getElem? hcur
+          have hal : a ≠ l := fun e => not_reach_parent hr hg hkid (e ▸ ha'l) rfl
+          refine ⟨a, l, xs', i', rfl, .step hg hkid ha'l, hgl, hy, ?_⟩
+          rw [setSlotH_cons_some i (j :: js) v (show listAt h (some a) = some (a, xs) by simp [listAt, hg])]
+          simp only [padH_eq_self (Nat.succ_le_of_lt hlt), hset, set_of_getElem? hcur]
+          rw [write_same (by rw [get?_write_ne h _ hal]; exact hg)]
+
+/-- `x.AddValue(last, v)` on a container `x` of a tree-shaped document, for EVERY name (plain or with
+    index groups `b[i]…[k]`): the node `y` that `x.Child(last)` returned before is detached from the
+    whole document, provided the new node shares no container / list with `y` and reaches no container /
+    list below `x` (`HOp.Ok` for a call on `x`).  With index groups the only content change is the slot
+    of the deepest list. -/
+theorem addH_detaches_deep {h h' : Heap} {rank : Addr → Nat} (hr : h.RankedBy rank) (hm : h.MapsOk)
+    {root x v y : Addr} (hs : SibSep h root) (hrx : Reach h root x) {last : String}
+    (hy : childH h x last = some y) (hvy : Apart h v y)
+    (hvx : ∀ w, Reach h x w → Composite h w → ¬ Reach h v w) (he : addH h x last v = some h') :
+    Apart h' root y := by
+  unfold addH at he
+  unfold childH at hy
+  split at he
+  · rename_i kvs hg
+    simp only [hg, childKvs] at hy
+    cases hp : parseSeg last with
+    | mk b is =>
+    rw [hp] at hy he
+    cases is with
+    | nil =>
+      simp only [Option.some.injEq] at hy he
+      subst he
+      refine write_detaches_deep hr hs hrx hg hy (fun p hp => ?_)
+      rcases mem_insert_ne (hm x kvs hg) hp with hp | hp
+      · exact Or.inl hp
+      · exact Or.inr (by rw [hp]; exact ⟨hvy, hvx x (.refl _) ⟨_, hg, rfl⟩⟩)
+    | cons i is =>
+      simp only at hy he
+      obtain ⟨a, l, xs, i', hcur, hal, hgl, hyi, hset⟩ := setSlotH_along_walk hr v y (i :: is) _ (by simp) hy
+      rw [hset] at he
+      simp only [Option.some.injEq] at he
+      have hxl : x ≠ l := by
+        intro e; subst e; rw [hg] at hgl; cases hgl
+      have hxl' : Reach h x l := .step hg (mem_kids_of_get? hcur) hal
+      have hh : h' = h.write l (.list (xs.set i' v)) := by
+        rw [← he, Refine.AMap.insert_of_get? (hm x kvs hg) hcur]
+        exact write_same (by rw [get?_write_ne h _ hxl]; exact hg)
+      rw [hh]
+      exact list_set_detaches_deep hr hs (hrx.trans hxl') hgl hyi hvy (hvx l hxl' ⟨_, hgl, rfl⟩)
+  · cases he
+
+/-- DETACHMENT BY A PATH WRITE, every path: when the walk of `segs` ends in the existing container `x`,
+    `AddValueAt(segs, v)` detaches the node `Lookup(segs)` returned before -/
+theorem pathwrite_detaches_full {h h' : Heap} {rank : Addr → Nat} (hr : h.RankedBy rank) (hm : h.MapsOk)
+    {root x y v : Addr} (hs : SibSep h root) {segs : List String}
+    (ha : ancestorH h root segs = some x) (hy : lookupSegsH h root segs = some y) (hvy : Apart h v y)
+    (hvx : ∀ w, Reach h x w → Composite h w → ¬ Reach h v w) (he : addAtSegsH h root segs v = some h') :
+    Apart h' root y := by
+  obtain ⟨last, _, h1, _, h3⟩ := ancestorH_spec v segs root x ha
+  rw [h1] at he
+  rw [h3] at hy
+  exact addH_detaches_deep hr hm hs (ancestorH_reach segs root x ha) hy hvy hvx he
 
 end Ytk.Heap
